@@ -252,3 +252,23 @@ reg(
                 "all conversion paths; unit tests pin a handful of literals per path."),
     level_note="Generated values and struct field pools are finite samples of the value space.",
 )
+
+reg(
+    "C03",
+    title="literal text, trim markers, raw, comment",
+    level="exploration",
+    technique="runtime monitoring against a structural prediction: templates are generated as item lists with independent trim markers on every delimiter side and the rendered output is compared with pure string algebra over that structure; comment side-effect probe",
+    design_ref="DESIGN.md §5 C03",
+    rule=("cases: (1) exhaustive single-item core: every whitespace run of length 0-2 over {space, tab, LF, CR} (plus CRLF/NBSP/U+3000 runs) on the left x on the right x all 16 marker combinations x "
+          "item kind {if, for, capture+print, raw, comment, output, assign} (x 4 inner paddings in the thorough tier); (2) random multi-item templates nested to depth 2 with raw bodies that look like markup "
+          "and comment bodies with side effects, followed by a probe that the variables and counters touched inside comments are unchanged; (3) markup-free random texts must render to themselves; "
+          "(4) a labelled sub-family of quote characters pairing across the closing tag of raw/comment. distinct = distinct template text; non-trivial = a delimiter is adjacent to a non-empty text segment "
+          "(identity family: the text contains a brace, percent, quote, dash or whitespace)."),
+    profiles={"quick": ["checked"], "thorough": ["checked"]},
+    floor={"quick": 100000, "thorough": 1000000},
+    assumptions=["text segments never contain a delimiter start and never end in '{' directly before a delimiter (that would be markup, not text)",
+                 "comment bodies contain no unbalanced block openers (C01 covers those)"],
+    level_text=("Bounded-exhaustive plus random exploration with an oracle derived from the generator's own structure, so no second parser is involved. Right level: the property quantifies over all "
+                "texts and marker placements; the suite pins a few dozen hand-written layouts."),
+    level_note="The prediction (25 lines of string algebra) is trusted.",
+)
